@@ -59,15 +59,17 @@ def run(ctx):
         fam.append(ph["label"])
     # resume: split the fixed-step run at several points
     base = physics[0]
-    splits = [3, 8, N // 2, N - 1] if ctx.quick else list(range(1, N))
-    for s in splits:
-        a = dict(base, k=rnd.choice([1, 2, 3]), split=[s * dt - dt / 2, (N - s) * dt - dt / 2])
+    splits = [3, 8, N // 2, N - 1, 5] if ctx.quick else list(range(1, N))
+    forms = ["memory", "reloaded", "resaved", "cursor_moved", "reloaded_last"]
+    for ns, s in enumerate(splits):
+        a = dict(base, k=rnd.choice([1, 2, 3]), split=[s * dt - dt / 2, (N - s) * dt - dt / 2], seed_form=forms[ns % len(forms)])
         jobs.append(("call", dict(module="harness.twin", func="solve_frames", args=a)))
         fam.append(base["label"])
     b2 = physics[2]
     for s in ((5, 11) if ctx.quick else (2, 5, 9, 13)):
         if True:
-            a = dict(b2, k=2, k2=(1 if s % 2 else 3), seed_twice=True, split=[s * dt - dt / 2, (16 - s) * dt - dt / 2])
+            a = dict(b2, k=2, k2=(1 if s % 2 else 3), seed_twice=True, split=[s * dt - dt / 2, (16 - s) * dt - dt / 2],
+                     seed_form=("reloaded" if s % 2 else "memory"))
             jobs.append(("call", dict(module="harness.twin", func="solve_frames", args=a)))
             fam.append(b2["label"])
     results = rf.replay_all(ctx, jobs)
